@@ -63,7 +63,11 @@ func CheckC05(spec *vexec.CaseSpec, out *vexec.Outcome, controlled bool) (rs []R
 		return L[s]
 	}
 	hungSeq := -1
+	stopHost := ""
 	for _, e := range out.Events {
+		if e.Kind == "CTL" && strings.HasPrefix(e.Info, "stop.inject:") {
+			stopHost = e.Step
+		}
 		if e.Kind == "CTL" && e.Info == "hung" {
 			hungSeq = e.Seq
 		}
@@ -130,9 +134,28 @@ func CheckC05(spec *vexec.CaseSpec, out *vexec.Outcome, controlled bool) (rs []R
 		// (e) repeating steps
 		if s.Repeat {
 			obligations++
-			if be, ok := after(l.beforeExec); ok {
-				if en, ok2 := after(l.enters); ok2 && en > be {
-					add("repeated-after-stop:"+scen, "repeating step %s began a new iteration (cancel check passed at event %d, Run() at %d) after the stop was accepted (event %d)", name, be, en, T)
+			// Sound only when the cancel check of the new iteration is known
+			// to come after T: the hook event that follows the check is not
+			// atomic with it, so a worker that passed the check just before
+			// the stop may log it afterwards (same window as lost-signal).
+			// Known positions: (1) the previous iteration ended after T;
+			// (2) the stop was injected from this step's own repeat.wait hook
+			// (its worker was about to sleep the repeat interval).
+			for _, x := range l.exits {
+				if x <= T {
+					continue
+				}
+				for _, en := range l.enters {
+					if en > x {
+						add("repeated-after-stop:"+scen, "repeating step %s began a new iteration (Run() at event %d) after its previous iteration had ended (event %d) after the stop was accepted (event %d)", name, en, x, T)
+						break
+					}
+				}
+				break
+			}
+			if stopHost == name && spec.Stop != nil && spec.Stop.At == "repeat.wait" {
+				if en, ok := after(l.enters); ok {
+					add("repeated-after-stop:"+scen, "repeating step %s began a new iteration (Run() at event %d) after the stop was accepted (event %d) while it was waiting for its repeat interval", name, en, T)
 				}
 			}
 			if openAt(l, T) {
